@@ -42,6 +42,13 @@ func newTreeR(bufsz int, ready bool) *vTree {
 	stop := make(chan struct{})
 	t.pcache = newCache(context.Background(), vLog{}, stop, filter.Null())
 	t.root.cacheOverride = t.pcache
+	// like a controller's cache, the root's cache stops when the root goes away
+	if zzverif.Param("ROOTCACHE", 0) == 1 {
+		go func() {
+			<-t.root.donech
+			close(stop)
+		}()
+	}
 	if ready {
 		close(t.root.readych)
 	}
@@ -279,6 +286,9 @@ func VerifC10_Slow() {
 			}
 		}
 	}()
+	// paced: the environment lets the library's own goroutines drain between two events, so
+	// that no INTERNAL hand-over buffer overflows (only the stalled consumer's own buffer does)
+	paced := zzverif.NondetInt("paced", 0, 1) == 1
 	acked := 0
 	for i := 0; i < m; i++ {
 		// premise: the healthy consumer keeps its backlog below its buffer
@@ -287,6 +297,9 @@ func VerifC10_Slow() {
 			acked++
 		}
 		t.publishMixed() // must never block: the root buffer is large enough, nothing downstream may push back
+		if paced {
+			zzverif.Quiesce()
+		}
 	}
 	zzverif.Quiesce()
 	close(stopRead)
@@ -304,6 +317,19 @@ func VerifC10_Slow() {
 		}
 	}
 	zzverif.Assert(len(pl) == alive, "C10/cache-current")
+	// ... including the caches of filtered nodes, stalled or not (their filter accepts everything)
+	for _, nd := range t.nodes {
+		if nd.refilt == nil || !paced {
+			continue // unpaced: a library goroutine may itself lag more than its input buffer holds
+		}
+		var own []vEnt
+		if nd.sub != nil {
+			own = vListEnts(nd.sub.Cache(), "harness/own-list")
+		} else {
+			own = vListEnts(nd.pub.Cache(), "harness/own-list")
+		}
+		zzverif.Assert(vSameContent(own, pl), "C10/cache-current/filtered-node")
+	}
 	// what the stalled consumer later finds is an in-order subsequence, at least its buffer's worth
 	sn := t.nodes[stalled]
 	sn.drain()
